@@ -32,6 +32,8 @@ impl Sasl for TokenSasl {
 pub enum Srv {
     /// send these bytes
     Send(Vec<u8>, &'static str),
+    /// send these bytes and end the stream right behind them (atomically)
+    SendThenEnd(Vec<u8>, InEnd),
     Eof,
     Reset,
     /// say nothing (a timeout must be configured)
@@ -159,6 +161,14 @@ pub fn gen_script(r: &mut Rng, o: &Opts, props: &FieldTable) -> Script {
                 let text = wire::rand_shortstr(r);
                 set(&mut s, 2, vec![Srv::Send(conn_close_frame(code, &text), "Close")], &format!("ServerClosedConnection({},{:?})", code, text), "Close instead of OpenOk")
             }
+            2 if r.bool() => {
+                // the broker refuses and hangs up without waiting for the CloseOk: its close
+                // is what happened, the end of the stream only follows from it
+                let code = r.next() as u16;
+                let text = wire::rand_shortstr(r);
+                let end = if r.bool() { InEnd::Eof } else { InEnd::Err(ErrorKind::ConnectionReset) };
+                set(&mut s, 2, vec![Srv::SendThenEnd(conn_close_frame(code, &text), end)], &format!("ServerClosedConnection({},{:?})", code, text), "Close instead of OpenOk, then the socket ends")
+            }
             2 => set(&mut s, 2, vec![Srv::Eof], "UnexpectedSocketClose", "EOF instead of OpenOk"),
             3 => set(&mut s, 2, vec![Srv::Reset], "IoErrorReadingSocket(ConnectionReset)", "reset instead of OpenOk"),
             4 if o.timeout_ms.is_some() => set(&mut s, 2, vec![Srv::Silence], silence_expect, "silence instead of OpenOk"),
@@ -282,6 +292,7 @@ pub fn run_script(o: &Opts, s: &Script, props: &FieldTable, seg: Segmenter, wfra
         for a in step {
             match a {
                 Srv::Send(b, _) => h.inject(b.clone()),
+                Srv::SendThenEnd(b, end) => h.inject_then_end(b.clone(), Some(*end)),
                 Srv::Eof => h.set_end(InEnd::Eof),
                 Srv::Reset => h.set_end(InEnd::Err(ErrorKind::ConnectionReset)),
                 Srv::Silence => {
@@ -332,7 +343,9 @@ pub fn run_script(o: &Opts, s: &Script, props: &FieldTable, seg: Segmenter, wfra
             }
         }
         e if e.starts_with("ServerClosedConnection") => {
-            if names.last().map(|s| s.as_str()) != Some("Connection.CloseOk") {
+            // (a CloseOk cannot be demanded from a client whose socket has just ended)
+            let socket_gone = s.steps.iter().flatten().any(|a| matches!(a, Srv::SendThenEnd(..)));
+            if !socket_gone && names.last().map(|s| s.as_str()) != Some("Connection.CloseOk") {
                 res.violate("close_not_answered", format!("{}: client wrote {:?}, the last frame must be Connection.CloseOk", s.label, names));
             }
         }
